@@ -60,5 +60,6 @@ RULES = [
     ("P3", pool.P3_route, ["default"]),
     ("P10", pool2.P10_aspects("sites", "pure-waiter"), ["default"]),
     ("P15", pool2.P15, ["default"]),
+    ("P16b", pool2.no_try_lock, ["default"]),
     ("C04.1", C04_1, ["default"]),
 ]
